@@ -406,13 +406,25 @@ def rule_sensitivity_merge(run):
     prims = {"isinstance": lambda v, t: isinstance(v, t if isinstance(t, (type, tuple)) else ()), "_SensitivityList": _SensitivityList, "_SensitivityAll": _SensitivityAll,
              "__setattr__": lambda o, k, v: setattr(o, k, v)}
 
+    class _Sig:
+        """a signal: `==` is the overloaded HDL comparison of trace-time values (two inputs that are both 'U' compare
+        equal) - only identity tells signals apart"""
+
+        def __init__(self, name):
+            self.name = name
+
+        def __eq__(self, other):
+            return True
+
+        __hash__ = object.__hash__
+
     def run_seq(seq):
         so = _Self()
         for x in seq:
-            arg = _SensitivityAll() if x == "all" else _SensitivityList(x)
+            arg = _SensitivityAll() if x == "all" else _SensitivityList([_Sig(n_) for n_ in x])
             Interp(prep, dict(prims)).call_function("PrepareAst.add_sensitivity", so, arg)
         r = so._sensitivity
-        return "all" if isinstance(r, _SensitivityAll) else (list(r.signals) if isinstance(r, _SensitivityList) else r)
+        return "all" if isinstance(r, _SensitivityAll) else ([s_.name for s_ in r.signals] if isinstance(r, _SensitivityList) else r)
     for seq, exp in (((["a"], ["b"]), ["a", "b"]), ((["a", "b"], ["c"], ["d"]), ["a", "b", "c", "d"]), ((["a"], "all"), "all"), (("all", ["a"]), "all"), ((["a"],), ["a"])):
         try:
             got = run_seq(seq)
@@ -432,7 +444,116 @@ def rule_refspec(run):
     c08.rule_refspec_reads(run)  # replaced index objects are stored back (otherwise a process variable is used at architecture level)
 
 
-RULES = [rule_reserved, rule_vocabulary, rule_names, rule_templates, rule_choices, rule_sensitivity, rule_buffers, rule_castmatrix, rule_concat_cast, rule_visit_unconditional, rule_shadow, rule_hint_position, rule_sensitivity_merge, rule_interface_names, rule_refspec]
+def rule_lexical(run):
+    run.begin(
+        "C06.k",
+        "Python strings copied into the VHDL text are made safe for their lexical context: text emitted behind `--` is "
+        "emitted line by line (a line break would end the comment and turn the rest into code); text emitted between "
+        "quotation marks has its quotation marks doubled and contains no line break (or is the str() of a bit vector, "
+        "which consists of bit characters only); select_with choices are compared with each other before a selected "
+        "assignment is built",
+        floor=4,
+    )
+    n = 0
+    for rel in (VH, ASM):
+        m = run.idx.mod(rel)
+        for js in ast.walk(m.tree):
+            if not isinstance(js, ast.JoinedStr):
+                continue
+            vals = js.values
+            for i, v in enumerate(vals):
+                if not isinstance(v, ast.FormattedValue):
+                    continue
+                prev = vals[i - 1].value if i and isinstance(vals[i - 1], ast.Constant) and isinstance(vals[i - 1].value, str) else ""
+                nxt = vals[i + 1].value if i + 1 < len(vals) and isinstance(vals[i + 1], ast.Constant) and isinstance(vals[i + 1].value, str) else ""
+                first = vals[0].value if isinstance(vals[0], ast.Constant) and isinstance(vals[0].value, str) else ""
+                fn = next((a for a in m.parents.ancestors(js) if isinstance(a, (ast.FunctionDef, ast.AsyncFunctionDef))), None)
+                where = next((q for q, f in m.functions.items() if f.node is fn), "?")
+                if first.lstrip().startswith("--") and isinstance(v.value, ast.Name):
+                    # free text in a comment: the variable must range over the pieces of a line split
+                    comps = [c for c in m.parents.ancestors(js) if isinstance(c, (ast.ListComp, ast.GeneratorExp, ast.For))]
+                    src_it = None
+                    for c in comps:
+                        gens = c.generators if not isinstance(c, ast.For) else [c]
+                        for g in gens:
+                            if isinstance(g.target, ast.Name) and g.target.id == v.value.id:
+                                src_it = g.iter
+                    if src_it is None:
+                        continue  # not a loop variable (a fixed label)
+                    n += 1
+                    ok = any(isinstance(c, ast.Call) and isinstance(c.func, ast.Attribute) and c.func.attr in ("splitlines", "split") for c in ast.walk(src_it))
+                    run.ob(ok, where, file=rel, line=js.lineno, detail=f"comment-text:{v.value.id}", expected="the text is split at line breaks, every piece gets its own `--`",
+                           found="ok" if ok else f"`{src(js)}` for {v.value.id} in `{src(src_it)[:50]}`: a line break in the text ends the comment, the rest is emitted as code")
+                elif prev.endswith('"') and nxt.startswith('"'):
+                    n += 1
+                    var = v.value.id if isinstance(v.value, ast.Name) else None
+                    safe = None
+                    # (a) pieces of a text whose quotation marks were doubled and which was split at line breaks
+                    for c in m.parents.ancestors(js):
+                        if isinstance(c, (ast.ListComp, ast.GeneratorExp)):
+                            for g in c.generators:
+                                if isinstance(g.target, ast.Name) and g.target.id == var:
+                                    t = src(g.iter)
+                                    dbl = any(isinstance(k, ast.Call) and isinstance(k.func, ast.Attribute) and k.func.attr == "replace" and len(k.args) == 2
+                                              and isinstance(k.args[0], ast.Constant) and k.args[0].value == '"' and isinstance(k.args[1], ast.Constant) and k.args[1].value == '""' for k in ast.walk(g.iter))
+                                    spl = any(isinstance(k, ast.Call) and isinstance(k.func, ast.Attribute) and k.func.attr in ("split", "splitlines") for k in ast.walk(g.iter))
+                                    safe = "escaped" if dbl and spl else f"unescaped pieces of `{t[:50]}`"
+                    # (b) str() of a bit vector
+                    if safe is None and var:
+                        for c in m.parents.ancestors(js):
+                            if isinstance(c, ast.If) and any(_contains_node(x, js) for x in c.body):
+                                for k in ast.walk(c.test):
+                                    if isinstance(k, ast.Call) and dotted(k.func) == "isinstance" and dotted(k.args[0]) == var and dotted(k.args[1]) in ("BitVector", "Unsigned", "Signed"):
+                                        safe = "escaped"
+                    # (c) a computed bit string: "0" * width
+                    if safe is None and var and fn is not None:
+                        asg = [a for a in walk_local(fn) if isinstance(a, ast.Assign) and any(dotted(t) == var for t in a.targets)]
+                        if asg and all(isinstance(a.value, ast.BinOp) and isinstance(a.value.op, ast.Mult) and isinstance(a.value.left, ast.Constant) and isinstance(a.value.left.value, str)
+                                       and set(a.value.left.value) <= set("01UXZWLH-") for a in asg):
+                            safe = "escaped"
+                    ok = safe == "escaped"
+                    run.ob(ok, where, file=rel, line=js.lineno, detail=f"string-literal:{src(v.value)[:30]}", expected="quotation marks doubled and no line break (or a bit string)",
+                           found="ok" if ok else f"`{src(js)}`: {safe or 'the text is copied between the quotation marks as it is'} - a `\"` or a line break in it gives an invalid string literal")
+    if n < 3:
+        raise AnalysisError("C06.k: comment / string-literal emission sites not recognised")
+    # the escaping helper is what the free-text sites use
+    m = run.idx.mod(VH)
+    for q in ("Assert.write",):
+        f = m.func(q)
+        msg = [j for j in ast.walk(f.node) if isinstance(j, ast.JoinedStr) and any(isinstance(v, ast.FormattedValue) and "_message" in src(v.value) for v in j.values)]
+        for j in msg:
+            v = [v for v in j.values if isinstance(v, ast.FormattedValue) and "_message" in src(v.value)][0]
+            ok = isinstance(v.value, ast.Call) and isinstance(v.value.func, ast.Name) and m.has_func(v.value.func.id)
+            run.ob(ok, q, file=m.rel, line=j.lineno, detail="message", expected="the message goes through the string-literal helper", found=src(v.value)[:60])
+    # select_with: distinct choices
+    prep = run.idx.mod("cohdl/_compiler/frontend/_prepare_ast.py")
+    ci = prep.func("PrepareAst.convert_intrinsic")
+    brs = [s_ for s_ in ast.walk(ci.node) if isinstance(s_, ast.If) and isinstance(s_.test, ast.Call) and dotted(s_.test.func) == "isinstance" and len(s_.test.args) == 2 and (dotted(s_.test.args[1]) or "").split(".")[-1] == "_SelectWith"]
+    if len(brs) != 1:
+        raise AnalysisError("convert_intrinsic: branch for _SelectWith not found")
+    br = brs[0]
+    loopvars = set()
+    for x in ast.walk(br):
+        if isinstance(x, (ast.For, ast.comprehension)):
+            loopvars.update(nm.id for nm in ast.walk(x.target) if isinstance(nm, ast.Name))
+    ok = False
+    for a in ast.walk(br):
+        if isinstance(a, (ast.Assert, ast.If)):
+            for c in ast.walk(a.test):
+                if isinstance(c, ast.Compare) and len(c.ops) == 1 and isinstance(c.ops[0], (ast.Eq, ast.NotEq, ast.In, ast.NotIn)):
+                    l, r = dotted(c.left), dotted(c.comparators[0])
+                    if l in loopvars and r and r.split(".")[0] in loopvars | {"branches"} and l != r:
+                        ok = True
+    run.ob(ok, "PrepareAst.convert_intrinsic[_SelectWith]", file=prep.rel, line=br.lineno, detail="distinct-choices", expected="the converted choices are compared pairwise; equal choices are rejected",
+           found="ok" if ok else "choices are never compared: two dictionary keys that denote the same value are emitted as two identical `when` choices")
+    run.end()
+
+
+def _contains_node(root, node):
+    return any(x is node for x in ast.walk(root))
+
+
+RULES = [rule_reserved, rule_vocabulary, rule_names, rule_templates, rule_choices, rule_sensitivity, rule_buffers, rule_castmatrix, rule_concat_cast, rule_visit_unconditional, rule_shadow, rule_hint_position, rule_sensitivity_merge, rule_interface_names, rule_refspec, rule_lexical]
 LEVEL = "other"
 EXPLANATION = (
     "Legality clauses that are properties of the back end's own tables and templates, decided for all designs: the "
